@@ -13,7 +13,10 @@ Oracle : (independent of the model) payloads tagged with their circuit leave onl
          reordering of deliveries; forged cells (unknown id, known id with foreign body) change no table entry;
          a create under an id that is live in any table (relay id, exit id - also after the 60 s cache expired -,
          own circuit id) replaces nothing and the old circuit keeps working; a destroy removes an entry iff it is
-         correctly signed by the neighbour stored for that id (matrix id x sender x signature x table role).
+         correctly signed by the neighbour stored for that id (matrix id x sender x signature x table role); when a
+         third party's create under the same id is dispatched back-to-back with a genuine create (no event-loop
+         turn in between, both orders, first hop and extend hop) the entry made for the first one is not replaced,
+         only the first sender gets a created, and the genuine circuit still carries data both ways.
 """
 from __future__ import annotations
 
@@ -230,20 +233,23 @@ class CNet(onionlock.LockNet):
 
     async def tick(self, loop, dt, sink):
         """virtual time passes on every node: scheduled removals pop, CreatedRequestCaches may expire"""
-        pres = {n: (self.alpha_c(ov), {k: c.number for k, c in ov.request_cache._identifiers.items() if k.startswith("created:")})
+        pres = {n: (self.alpha_c(ov), {k: c.number for k, c in ov.request_cache._identifiers.items() if k.startswith("created:")},
+                    {k for k in ov.request_cache._identifiers if k.startswith("create:")})
                 for n, ov in self.nodes.items()}
         mark = len(self.trace)
         await loop.advance(dt)
         await self.settle_tasks()
         sent = [r for r in self.trace[mark:] if r[0] == "send"]
         for n, ov in self.nodes.items():
-            pre, created = pres[n]
+            pre, created, creating = pres[n]
             if dt >= ov.settings.remove_tunnel_delay:
                 del self.pend[n][:]
             gone = [num for k, num in created.items() if k not in ov.request_cache._identifiers]
             ops = (["OTimer"] if dt >= ov.settings.remove_tunnel_delay else []) + ["OCreatedExpired %d" % g for g in gone]
-            if any(s[1] == tuple(ov.my_peer.address) for s in sent):
-                continue    # the node did something of its own during the interval (not an event of this model)
+            if any(s[1] == tuple(ov.my_peer.address) for s in sent) or \
+                    creating != {k for k in ov.request_cache._identifiers if k.startswith("create:")}:
+                continue    # the node did something of its own during the interval / an unanswered extend timed out
+                            # (not events of this model)
             post = self.alpha_c(ov)
             sink.append({"node": n, "escaped": None, "records": [], "op": "; ".join(ops),
                          "case": "(%s, [%s])" % (pre, "; ".join(ops)), "expected": "Ok (%s, [])" % post})
@@ -471,6 +477,113 @@ async def destroy_matrix(ctx, tn, loop, book, r):
     return n_cases
 
 
+def _is_plain_create(tn, d):
+    return tn.is_cell(d) and d[27] != 0 and len(d) > 34 and d[29] == 2
+
+
+async def create_race(ctx, tn, loop, book, r):
+    """a third party's create under the SAME id dispatched back-to-back with a genuine create: both datagrams are
+    handed to the node before the event loop runs any task, in both orders, at the first hop and at a later hop
+    (the create a relay sends for an extend)"""
+    from ipv8.messaging.anonymization.payload import CreatePayload
+    n = 0
+    for hop_kind in ("first-hop", "extend-hop"):
+        for order in ("genuine-first", "forged-first"):
+            c = tn.origin.create_circuit(1 if hop_kind == "first-hop" else 2, exit_flags=[2])
+            if c is None:
+                ctx.broke("create-race: circuit not started")
+                return n
+            evs = []
+            # run the construction up to the create that is to be raced
+            for _ in range(40):
+                head = tn.net.queue[0] if tn.net.queue else None
+                if head is not None and _is_plain_create(tn, head[2]) and \
+                        ((hop_kind == "first-hop") == (tuple(head[0]) == tuple(tn.origin.my_peer.address))):
+                    break
+                if not tn.net.queue:
+                    await tn.settle_tasks()
+                    if not tn.net.queue:
+                        break
+                    continue
+                await tn.drain_c(evs, limit=1)
+            book.add_all(evs, {"kind": "build"})
+            if not tn.net.queue or not _is_plain_create(tn, tn.net.queue[0][2]):
+                ctx.broke("create-race: no create to race with (%s)" % hop_kind)
+                return n
+            g = tn.net.queue.popleft()
+            gsrc, gdst, gd = g
+            node = tn.by_addr[tuple(gdst)]
+            cid = int.from_bytes(gd[23:27], "big")
+            attacker = next(ov for ov in tn.nodes.values()
+                            if ov is not node and ov is not tn.origin and tuple(ov.my_peer.address) != tuple(gsrc))
+            _, pub = attacker.crypto.generate_diffie_secret()
+            attacker.send_cell(node.my_peer.address, CreatePayload(cid, r.randrange(65536), attacker.my_peer.public_key.key_to_bin(), pub))
+            f = tn.net.queue.pop()
+            pair = [g, f] if order == "genuine-first" else [f, g]
+            meta = {"kind": "create-race", "hop": hop_kind, "order": order,
+                    "what": "a third party's create under the same id %d dispatched back-to-back with the genuine create (%s, %s)" % (cid, hop_kind, order)}
+            pre = tn.alpha_c(node)
+            mark = len(tn.trace)
+            ep = tn.net.endpoints[tuple(gdst)]
+            esc = None
+            try:
+                for (s_, _, d_) in pair:          # no yield to the event loop in between
+                    ep.inject(s_, d_)
+            except Exception as e:   # noqa
+                esc = type(e).__name__
+            await tn.settle_tasks()
+            recs = tn.trace[mark:]
+            es = node.exit_sockets.get(cid)
+            cache = node.request_cache._identifiers.get("created:%d" % cid)
+            cands = "" if cache is None else "; ".join("(%d, %s)" % (tn.reg.pk(kk), tn.peer_coq(p)) for kk, p in cache.candidates.items())
+            ops = []
+            for j, (s_, _, d_) in enumerate(pair):
+                kl = int.from_bytes(d_[32:34], "big")
+                kb = d_[34:34 + kl]
+                ops.append("OCreate %s %d %d %s %s [%s]" % (
+                    addr_coq(s_), cid, int.from_bytes(d_[30:32], "big"), "(Some %d)" % tn.reg.pk(kb) if key_ok(kb) else "None",
+                    "(Some %d)" % (es.hop.keys.kid if (es is not None and j == 0) else 0), cands if j == 0 else ""))
+            acts, _, _ = tn.cacts(node, recs, False, 0, 0)
+            post = tn.alpha_c(node)
+            book.add({"node": node._verif_name, "escaped": esc, "records": recs, "op": "; ".join(ops)[:200],
+                      "case": "(%s, [%s])" % (pre, "; ".join(ops)), "expected": "Ok (%s, [%s])" % (post, "; ".join(acts))}, meta)
+            n += 1
+            ctx.count(("create-race", hop_kind, order), nontrivial=True)
+            # oracle: the entry belongs to whoever came first and was not replaced by the second create
+            first_src, first_d = pair[0][0], pair[0][2]
+            fk = first_d[34:34 + int.from_bytes(first_d[32:34], "big")]
+            if es is None:
+                ctx.violation("create-race/no-entry", "%s: no exit socket after the two creates" % meta["what"], meta)
+            elif tuple(es.hop.address) != tuple(first_src) or es.hop.peer.public_key.key_to_bin() != fk:
+                ctx.violation("create-race/entry-replaced", "%s: the exit socket made for the first create (from %s) now belongs to %s" % (
+                    meta["what"], tuple(first_src), tuple(es.hop.address)), meta)
+            replies = [x for x in recs if x[0] == "send" and _is_plain_create(tn, x[3]) is False and tn.is_cell(x[3]) and x[3][27] != 0 and x[3][29] == 3]
+            if len(replies) != 1 or tuple(replies[0][2]) != tuple(first_src):
+                ctx.violation("create-race/created-sent-to-wrong-party", "%s: created replies went to %s" % (
+                    meta["what"], [tuple(x[2]) for x in replies]), meta)
+            evs = []
+            for _ in range(60):
+                await tn.drain_c(evs)
+                await tn.settle_tasks()
+                if c.state == "READY" or not tn.net.queue:
+                    break
+            book.add_all(evs, dict(meta, what="construction continues after the race"))
+            if order == "genuine-first":
+                if c.state != "READY":
+                    ctx.violation("create-race/genuine-circuit-not-built", "%s: the genuine circuit did not become ready" % meta["what"], meta)
+                elif not await transfer_check(ctx, tn, book, r, [c], dict(meta, what="data both ways on the genuine circuit after the race"), rounds=2):
+                    ctx.violation("create-race/genuine-circuit-cut-off", "%s: the genuine circuit is READY but does not carry data both ways" % meta["what"], meta)
+            if c.state != "READY" and c.circuit_id in tn.origin.circuits:
+                # the originator gives up the circuit whose create lost the race (before its retry timer does anything)
+                cid0 = c.circuit_id
+                book.add(await tn.local(tn.origin, "ORemoveCircuit %d 0" % cid0,
+                                        lambda: tn.origin.remove_circuit(cid0, "lost the race", remove_now=True)), meta)
+            evs = []
+            await tn.tick(loop, 6, evs)
+            book.add_all(evs, {"kind": "tick"})
+    return n
+
+
 async def create_in_use(ctx, tn, loop, book, r):
     """a create under an id that is live in some table of the receiver"""
     from ipv8.messaging.anonymization.payload import CreatePayload
@@ -649,6 +762,15 @@ async def _run(ctx, loop):
     finally:
         await tn.stop()
     evaluate(ctx, tn, book, "create")
+    # ---- 2b: a forged create racing a genuine one under the same id
+    tn = CNet(n_relays=3, n_exits=2, exit_flags=(2, 4, 8))
+    await tn.start()
+    book = Book(ctx)
+    try:
+        stats["create_race"] = await create_race(ctx, tn, loop, book, r)
+    finally:
+        await tn.stop()
+    evaluate(ctx, tn, book, "race")
     # ---- 3: destroy matrix
     tn = CNet(n_relays=3, n_exits=2, exit_flags=(2, 4, 8))
     await tn.start()
@@ -703,6 +825,8 @@ async def replay_case(case, loop):
         kind = case.get("kind")
         if kind == "create-in-use":
             await create_in_use(ctx, tn, loop, book, r)
+        elif kind == "create-race":
+            await create_race(ctx, tn, loop, book, r)
         elif kind == "destroy":
             await destroy_matrix(ctx, tn, loop, book, r)
         else:
@@ -762,6 +886,7 @@ def run(ctx):
     ctx.coverage["rule"] = ("quick: 2 networks (3-4 relays, 2 exits) x 3-4 concurrent circuits of 1..3 hops built under observation, 100 rounds each of "
                             "tagged data both ways on all circuits at once with deliveries in random order (thorough: 6 networks, 4-6 circuits, 300 rounds); "
                             "forged cells (unknown id / garbage / other circuit's body / outsider keys) at every entry of every circuit; creates under live "
-                            "relay-in / relay-out / exit / own-circuit ids within and after the 60 s cache; destroy matrix {own, other, unknown id} x {adjacent, "
+                            "relay-in / relay-out / exit / own-circuit ids within and after the 60 s cache; same-id creates dispatched back-to-back with a genuine create "
+                            "(first hop / extend hop x both orders); destroy matrix {own, other, unknown id} x {adjacent, "
                             "other member, outsider} x {signature ok, bad, key substituted} x {relay-in, relay-out, exit, circuit} + the legitimate destroys; "
                             "every delivered datagram / timer advance is one lockstep case; distinct = distinct scenario parameters")
